@@ -161,10 +161,16 @@ type capSender struct {
 }
 
 func (s *capSender) NewView(id hotstuff.ID, si hotstuff.SyncInfo) error {
+	if s.node.FailSend != nil && s.node.FailSend("newview") {
+		return fmt.Errorf("send to %d failed (injected)", id) // the connection to the peer is down: nothing leaves the node
+	}
 	s.node.Out = append(s.node.Out, OutMsg{From: s.node.ID, To: id, Msg: hotstuff.NewViewMsg{ID: s.node.ID, SyncInfo: si, FromNetwork: true}})
 	return nil
 }
 func (s *capSender) Vote(id hotstuff.ID, pc hotstuff.PartialCert) error {
+	if s.node.FailSend != nil && s.node.FailSend("vote") {
+		return fmt.Errorf("send to %d failed (injected)", id)
+	}
 	s.node.Out = append(s.node.Out, OutMsg{From: s.node.ID, To: id, Msg: hotstuff.VoteMsg{ID: s.node.ID, PartialCert: pc}})
 	return nil
 }
@@ -234,6 +240,7 @@ type Node struct {
 	Await        map[clientpb.MessageID]<-chan error // outcome channels of waiting clients
 	Outcomes     [][3]int64                          // (client, seq, 0 = success / 1 = error) in the order they were collected
 	Watchdog     time.Duration                       // > 0: a step that does not return gets its view timer fired by the driver (see guarded)
+	FailSend     func(kind string) bool              // when set and true: a unicast send (vote, new-view) fails with an error
 	StarvedTotal int
 	StarvedViews []int // views in which that happened since the driver last cleared it
 	asyncMu      sync.Mutex
